@@ -95,6 +95,11 @@ func (c *Conversation) verifySMP2(s1 *smp1State, msg smp2Message) error {
 		return newOtrError("Qb is an invalid group element")
 	}
 
+	if mod(msg.pb, p).Sign() == 0 || mod(msg.qb, p).Sign() == 0 {
+		// Pb and Qb are divided by in the next step (OTRv2 performs no group checks above)
+		return newOtrError("Pb or Qb has no inverse")
+	}
+
 	if !verifyZKP(msg.d2, msg.g2b, msg.c2, 3, c.version) {
 		return newOtrError("c2 is not a valid zero knowledge proof")
 	}
